@@ -1809,7 +1809,7 @@ package snaps
 //@   let mayClean = !isCI && (updateVAR == "true" || updateVAR == "clean")
 //@   let maySort = !isCI && len(opts) != 0 && opts[0].Sort
 //@   ensures [ci_readonly] isCI ==> fswrites == old(fswrites) && fsx == old(fsx) && fsc == old(fsc)
-//@   ensures [summary_printed] len(skippedTests.values) > 0 ==> len(stdout) > len(old(stdout))
+//@   ensures [summary_printed] len(skippedTests.values) > 0 || len(testEvents.items) > 0 ==> len(stdout) > len(old(stdout))
 //@   ensures [report_only] !mayClean ==> fsx == old(fsx)
 //@   ensures [no_sort_no_clean] !mayClean && !maySort ==> fswrites == old(fswrites) && fsc == old(fsc) && fsx == old(fsx)
 //@   ensures [registered_files_kept] forall p Str {fsx[p]}: has(testsRegistry.cleanup, p) ==> fsx[p] == old(fsx)[p]
